@@ -1,5 +1,5 @@
 (* C14 — Every reachable tree is engine-consistent and structurally well-formed. *)
-From DR Require Import Model.Reach Proofs.BuildLaws Proofs.ReachLaws.
+From DR Require Import Model.Reach Proofs.BuildLaws Proofs.ReachLaws Proofs.SqlRules Proofs.BacktrackLaws Proofs.SqlBuild Proofs.MultiIter.
 
 (* iteration-engine programs of any length: the built tree is node-locally well-formed — every
    operation's required columns are present, calculated tags are fresh, chain operands agree on
@@ -7,6 +7,21 @@ From DR Require Import Model.Reach Proofs.BuildLaws Proofs.ReachLaws.
 Theorem C14_iteration_programs_well_formed : forall env p t,
   prog_ok env p -> build_iter p = Ok t -> wf_tree t.
 Proof. exact iteration_programs_well_formed. Qed.
+
+(* programs over SEVERAL iteration engines, with transfers and with every combination of preferred-engine options on
+   their unary calls: the built tree is well-formed and every engine in it is an iteration engine *)
+Theorem C14_multi_engine_iteration_programs_well_formed : forall env p t,
+  iterprog_ok env p -> build_multi p = Ok t -> wf_tree t /\ all_iter t.
+Proof. intros env p t H1 H2. destruct (build_multi_iter_built env p t H1 H2) as (_ & W & _ & _ & A). auto. Qed.
+
+(* single-engine SQL programs (all unary operations, chains, joins, materializations): the built relation is a
+   conformed SELECT marker over a well-formed tree that stays in that engine *)
+Theorem C14_sql_programs_well_formed : forall env e0 p t, ekind_of e0 = KSql ->
+  sqlprog_ok env e0 p -> build_multi p = Ok t -> wf_tree t /\ good_all env t /\ engine_of t = e0.
+Proof.
+  intros env e0 p t Hk H1 H2. destruct (build_sql_built env e0 Hk p t H1 H2) as (G & _ & _ & E).
+  destruct (good_all_wf env t G). auto.
+Qed.
 
 Theorem C14_placeholders_never_nodes : forall o t, wf_tree (Un o t) -> o <> Ident.
 Proof. exact wf_tree_no_ident. Qed.
